@@ -54,4 +54,10 @@ man = {
                        for i in ids if i not in frags],
 }
 json.dump(man, open(os.path.join(V, "MANIFEST.json"), "w"), indent=1)
+# known_findings.json is assembled from props/*.findings.json (one fragment per property: no merge conflicts between branches)
+allf = []
+for p in sorted(glob.glob(os.path.join(V, "props", "*.findings.json"))):
+    allf += json.load(open(p))["findings"]
+json.dump({"_comment": "assembled by tools/mkmanifest.py from props/*.findings.json; never written at check time. status 'fixed' entries suppress nothing; status 'known' entries are matched on 'key' (the input class computed by the harness).",
+           "findings": allf}, open(os.path.join(V, "known_findings.json"), "w"), indent=1)
 print("claimed:", [c["property_id"] for c in checks])
